@@ -92,7 +92,9 @@ def check_json(P, ver, prefix, s, sort, minimal, o=None, calls_before=()):
     tag = T.SCHEMA_TAG[prefix if ver != "2" else ""]
     case = {"ver": ver, "vector": s, "sort": sort, "minimal": minimal}
     if calls_before:
-        case["calls_before"] = [list(c) for c in calls_before]  # earlier as_json() calls on the SAME object
+        # earlier calls on the SAME object: [sort, minimal] = as_json(); "name" = another accessor (C08.PRECALLS);
+        # "mutate:how:sort:minimal" = the caller edited the dictionary that as_json(sort, minimal) had returned
+        case["calls_before"] = [list(c) if isinstance(c, (list, tuple)) else c for c in calls_before]
     if o is None:
         ok, o = obs.call(L.CLS[ver], s)
         if not ok:
@@ -103,6 +105,36 @@ def check_json(P, ver, prefix, s, sort, minimal, o=None, calls_before=()):
         P.violation("schema-valid", "C10:v%s:as_json-raises:%s" % (tag, obs.exc_name(d)), case, error=repr(d))
         return
     judge_doc(P, ver, tag, d, case)
+    return d
+
+
+def apply_call(o, c):
+    """Execute one call descriptor (see check_json) on o; returns nothing, never raises."""
+    from . import C08
+    if isinstance(c, (list, tuple)):
+        obs.call(o.as_json, sort=c[0], minimal=c[1])
+    elif c.startswith("mutate:"):
+        _, how, so, mi = c.split(":")
+        ok, d = obs.call(o.as_json, sort=so == "True", minimal=mi == "True")
+        if ok and isinstance(d, dict):
+            mutate_doc(d, how)
+    elif c in C08.PRECALLS:
+        obs.call(C08.PRECALLS[c], o)
+
+
+def mutate_doc(d, how):
+    if how == "del-required":
+        d.pop("vectorString", None)
+        d.pop("baseScore", None)
+    elif how == "score-to-text":
+        for k in list(d):
+            if k.endswith("Score"):
+                d[k] = str(d[k])
+    elif how == "junk-values":
+        for k in list(d):
+            d[k] = "x"
+    elif how == "clear":
+        d.clear()
 
 
 def judge_doc(P, ver, tag, d, case):
@@ -135,8 +167,8 @@ def check_case(P, case):
         if not ok:
             o = None
         else:
-            for so, mi in before:
-                obs.call(o.as_json, sort=so, minimal=mi)
+            for c in before:
+                apply_call(o, c)
     check_json(P, ver, T.split_prefix(ver, case["vector"])[0], case["vector"], case["sort"], case["minimal"], o, before)
 
 
@@ -226,12 +258,27 @@ def shard(P, ver, idx, nshards, n, seed):
                             "sort": False, "minimal": False}, error=repr(o))
                 continue
             before = []
+            if j % 3 == 1:
+                # other accessors used on the object first (a document must be valid whatever was read before)
+                from . import C08
+                for name in rng2.sample(sorted(C08.PRECALLS), rng2.randint(1, 3)):
+                    apply_call(o, name)
+                    before.append(name)
+                P.stratum("other-accessors-before-as_json")
             for sort in (False, True):
                 for minimal in (False, True):
                     P.dist((s, sort, minimal))
                     P.stratum("v%s:%s:sort=%s:minimal=%s" % (ver, "official-order" if order == "official" else "random-order", sort, minimal))
-                    check_json(P, ver, p, s, sort, minimal, o, tuple(before))
+                    d = check_json(P, ver, p, s, sort, minimal, o, tuple(before))
                     before.append((sort, minimal))
+                    if j % 3 == 2 and isinstance(d, dict):
+                        # the caller edits the dictionary it got; the next document of the same kind is judged
+                        how = ("del-required", "score-to-text", "junk-values", "clear")[(j // 3 + len(before)) % 4]
+                        mutate_doc(d, how)
+                        before[-1] = "mutate:%s:%s:%s" % (how, sort, minimal)
+                        P.stratum("caller-edited-the-previous-document")
+                        check_json(P, ver, p, s, sort, minimal, o, tuple(before))
+                        before.append((sort, minimal))
         if j % 23 == 0:
             # near-misses of this vector (padding, case, separators ...): whatever the constructor
             # ACCEPTS is an accepted vector and its JSON must validate as well
